@@ -1157,6 +1157,15 @@ def jnp_expand_dims(a, axis):
     return AT(ax, a.data.reshape(tuple(x for x in ax if isinstance(x, int))))
 
 
+def jnp_atleast_2d(a):
+    a = to_at(a)
+    if len(a.axes) == 0:
+        return jnp_expand_dims(jnp_expand_dims(a, 0), 0)
+    if len(a.axes) == 1:
+        return jnp_expand_dims(a, 0)
+    return a
+
+
 def jnp_atleast_1d(a):
     a = to_at(a)
     return jnp_expand_dims(a, 0) if a.axes == () else a
